@@ -1,6 +1,6 @@
 \* C20 residual scenarios (thorough): chain of <= 3, <= 2 pools, one protocol pool
 CONSTANTS
-    Shapes = {"ss", "tc", "ptc"}
+    Shapes = {"ss", "ssc", "tc", "ptc"}
     MaxChain = 3
     MaxPools = 2
     Rich = TRUE
